@@ -160,7 +160,12 @@ def evaluate(op, shape, chunks, dtype, enc, bare, threads=False, blockcheck=True
         else:
             nidx, didx = IX.decode(enc, shape, da, bare)
         exp_chunks = None
+        oob = IX.out_of_bounds(enc, [len(c) for c in chunks] if op == "blocks" else shape)
         try:
+            if oob:
+                # Calibration: NumPy skips the bounds check when the broadcast selection is empty
+                # (x[np.array([], int), np.array([3])] on a (5, 3) array); dask raising IndexError is right.
+                raise IndexError("index out of bounds (harness check)")
             if op == "getitem":
                 e = x[nidx]
             elif op == "vindex":
